@@ -435,14 +435,9 @@ func c14ExecRun(t *rapid.T) {
 	// next caller (this harness included) would block for ever. Released here so that the process can go on.
 	leaked := 0
 	if err == nil {
-		for _, l := range simrt.HeldLocks() {
-			leaked++
-			switch m := l.(type) {
-			case interface{ Unlock() }:
-				m.Unlock()
-			}
-		}
+		leaked = len(simrt.HeldLocks())
 	}
+	simrt.SettleLocks()
 	finalCache := map[string]*plush.Template{}
 	if cacheOn {
 		finalCache = plush.VerifCachedTemplates()
